@@ -82,6 +82,8 @@ func MergeContexts(ctx1, ctx2 context.Context) (context.Context, context.CancelC
 			cancel(ctx1.Err())
 		case <-ctx2.Done():
 			cancel(ctx2.Err())
+		case <-ctx.Done():
+			// The merged context was canceled by its owner: nothing left to propagate
 		}
 	}()
 	return ctx, cancel
